@@ -249,6 +249,31 @@ def metadata_encrypted_when_present(ctx):
                   'the metadata handed to the encrypting closure (line %d) is not the `metadata` parameter itself (%s): some present '
                   'metadata (e.g. empty) is neither encrypted nor bound to the authentication data' % (
                       c.ln, [(s[0], getattr(s[1], 'name', s[1])) for s in srcs][:2]), 'receiver is the parameter itself', c.where())
+    # the same decision written as a `match` / `if let` on the parameter (or a combinator run in place on the expanded view)
+    opts = lib.params_by_type(gb, r'^std::option::Option<&\[u8\]>$')
+    for c in gb.calls(c07.DEM_ENC):
+        n += 1
+        ok = False
+        for sb in sorted(gb.live_blocks()):
+            t = gb.term(sb)
+            if t['k'] != 'switch' or not is_place(t['d']):
+                continue
+            _, d = lib.resolve_copy(gb, op_local(t['d']))
+            if d is None or d.kind != 'assign' or d.rv['k'] != 'discr' or d.rv['pl']['p']:
+                continue
+            srcs = copy_chain_sources(gb, {'cp': d.rv['pl']})
+            if not (srcs and all(s[0] == 'param' and opts and s[1] == opts[0] and not s[2] for s in srcs)):
+                continue
+            for v, tgt in t['cases']:
+                if v == 1 and gb.edge_dominates((sb, tgt), c.b):
+                    ok = True
+            if [1] != [v for v, _t in t['cases']] and t['else'] is not None and 0 in [v for v, _t in t['cases']] \
+                    and gb.edge_dominates((sb, t['else']), c.b):
+                ok = True
+        ctx.check(ok, gb.key, 'encrypt(metadata) for every Some',
+                  'the metadata encryption (line %d) is not decided by the `metadata` parameter being present: some present metadata '
+                  '(e.g. empty) is neither encrypted nor bound to the authentication data' % c.ln,
+                  'under the Some arm of a match on the parameter itself', c.where())
     ctx.floor(n, 1, 'Option combinator carrying the metadata encryption')
 
 
